@@ -15,9 +15,19 @@ REPO="${VERIF_REPO:-/repo}"
 BIN="$(mktemp -d "${TMPDIR:-/tmp}/vmon.XXXXXX")"
 trap 'rm -rf "$BIN"' EXIT
 
+MODFLAG=""
+if [ "$REPO" != "/repo" ]; then
+  # dev/testing only: build against another checkout (e.g. a scratch worktree with a seeded change)
+  sed "s#=> /repo#=> $REPO#" "$VERIF/harness/go.mod" > "$BIN/go.mod"
+  cp "$VERIF/harness/go.sum" "$BIN/go.sum"
+  MODFLAG="-modfile=$BIN/go.mod"
+  export VERIF_REPO="$REPO" VERIF_OUT="${VERIF_OUT:-/tmp/vmon-scratch-out}"
+  mkdir -p "$VERIF_OUT"
+fi
+
 build() { # $1 = output, rest = extra go build flags
   local out="$1"; shift
-  (cd "$VERIF/harness" && go build "$@" -o "$out" ./cmd/vmon) 2>"$BIN/build.log"
+  (cd "$VERIF/harness" && go build $MODFLAG "$@" -o "$out" ./cmd/vmon) 2>"$BIN/build.log"
   local rc=$?
   if [ $rc -ne 0 ]; then
     echo "INCONCLUSIVE: build of the monitor against $REPO failed:" ; cat "$BIN/build.log"
